@@ -17,13 +17,19 @@ pub fn exe() -> String {
     me.parent().unwrap().join("ska_cli").to_str().unwrap().to_string()
 }
 
+pub fn cli_timeout_s() -> u64 {
+    std::env::var("VERIF_CLI_TIMEOUT").ok().and_then(|s| s.parse().ok()).unwrap_or(120)
+}
+
 pub fn shim() -> Option<String> {
     std::env::var("VERIF_SHIM").ok().filter(|p| std::path::Path::new(p).exists())
 }
 
 /// Run with a working directory; `hash_seed` activates the deterministic-seed shim.
 pub fn run(args: &[&str], cwd: &str, hash_seed: Option<u64>) -> CliOut {
-    let mut c = Command::new(exe());
+    // every CLI run is bounded: a command that hangs is killed and shows up as exit -9
+    let mut c = Command::new("timeout");
+    c.args(["-s", "KILL", &cli_timeout_s().to_string()]).arg(exe());
     c.args(args).current_dir(cwd).stdin(Stdio::null()).stdout(Stdio::piped()).stderr(Stdio::piped());
     c.env_remove("LD_PRELOAD");
     c.env("RUST_BACKTRACE", "0");
@@ -33,7 +39,14 @@ pub fn run(args: &[&str], cwd: &str, hash_seed: Option<u64>) -> CliOut {
         }
     }
     match c.output() {
-        Ok(o) => CliOut { code: o.status.code().unwrap_or(-1), stdout: o.stdout, stderr: o.stderr },
+        Ok(o) => {
+            let code = o.status.code().unwrap_or(-9);
+            let mut stderr = o.stderr;
+            if code == -9 || code == 137 {
+                stderr.extend_from_slice(b"\nerror: command killed after the time limit (hang)");
+            }
+            CliOut { code: if code == 137 { -9 } else { code }, stdout: o.stdout, stderr }
+        }
         Err(e) => CliOut { code: -2, stdout: vec![], stderr: format!("spawn failed: {e}").into_bytes() },
     }
 }
